@@ -132,6 +132,8 @@ JudgeDecl(obs) ==
       THEN { [property |-> "C09", clause |-> "Off", sig |-> obs.pos \o ":" \o NameClass(n), expected |-> n, observed |-> obs.shownOff] } ELSE {})
      \cup (IF obs.shownOn # exp
       THEN { [property |-> "C09", clause |-> "On", sig |-> obs.pos \o ":" \o NameClass(n), expected |-> exp, observed |-> obs.shownOn] } ELSE {})
+     \cup (IF obs.annotatedOn /\ obs.annotationOn # n        \* the annotation gives the Python name back
+      THEN { [property |-> "C09", clause |-> "Annotation", sig |-> obs.pos \o ":names-something-else", expected |-> n, observed |-> obs.annotationOn] } ELSE {})
      \cup (IF obs.annotatedOn # (obs.shownOn # n)
       THEN { [property |-> "C09", clause |-> "Annotation", sig |-> obs.pos \o ":" \o (IF obs.annotatedOn THEN "superfluous" ELSE "missing"),
                expected |-> ToString(obs.shownOn # n), observed |-> ToString(obs.annotatedOn)] } ELSE {}))
